@@ -61,8 +61,18 @@ func c15BasePlan() *Plan {
 		Notification: &model.Notification{Columns: []string{"c_note", "block_num"}}}
 	dep.Table = model.Table{Name: "t_dep", Columns: []model.Col{{Name: "c_who", Type: "bytea"}, {Name: "c_note", Type: "text"}, {Name: "c_x", Type: "bytea"}, {Name: "c_y", Type: "numeric"}, {Name: "log_addr", Type: "bytea"}, {Name: "tx_hash", Type: "bytea"}, {Name: "block_time", Type: "numeric"}},
 		Unique: [][]string{{"ig_name", "src_name", "block_num", "tx_idx", "log_idx", "abi_idx"}}, Index: [][]string{{"c_who"}, {"c_note", "c_x"}}}
-	p.Decls = []*model.Decl{ref, dep}
-	p.Content.Events = []EventSpec{{Event: ref.Event}, {Event: dep.Event}}
+	// a second integration writing the same table with a table definition of
+	// its own: every string of a later definition of a shared table is a
+	// position too
+	dep2 := &model.Decl{Name: "dep2", Enabled: true, Sources: []model.SrcRef{{Name: "s0", Start: 3}},
+		Event: &model.Event{Name: "Sync", Type: "event", Inputs: []model.Input{
+			{Name: "who", Type: "address", Indexed: true, Column: "c_who2"},
+			{Name: "note", Type: "string", Column: "c_note2"},
+		}}}
+	dep2.Table = model.Table{Name: "t_dep", Columns: []model.Col{{Name: "c_who2", Type: "bytea"}, {Name: "c_note2", Type: "text"}},
+		Unique: [][]string{{"ig_name", "src_name", "block_num", "tx_idx", "log_idx", "abi_idx"}}, Index: [][]string{{"c_who2"}, {"c_note2"}}}
+	p.Decls = []*model.Decl{ref, dep, dep2}
+	p.Content.Events = []EventSpec{{Event: ref.Event}, {Event: dep.Event}, {Event: dep2.Event}}
 	p.Content.Seeded = []SeededLogs{{Event: ref.Event, AddrInput: 0, UpTo: 2}}
 	p.ScriptChain = []ScriptedChain{{AtPos: 9, Pair: "s0/dep", Src: "s0", Action: "reorg", Depth: 2, NewLen: 3}}
 	p.Faults.MaxReorgs, p.Faults.MaxReorgDepth = 1, 2
